@@ -54,8 +54,20 @@ def gen_case(rng, hostile_p=0.08, limits=None, max_nodes=40, n_frames=None, n_wa
             g.pool.append(d["self"])
         frames.append(dict(file=rng.choice(["/app/src/main.py", "/app/lib/util.py", "/usr/lib/python3/os.py", "/other/x.py"]),
                            func=rng.choice(["handler", "run", "<module>", "f"]), line=rng.randrange(1, 200), locals=d))
+    # the corpus that runs first: the first calls on one generator state put each special shape ONCE directly into the paused
+    # frame, the next ones hand each to a watch - so that no shape is left to the luck of the draw
+    seq = getattr(rng, "_corpus_calls", 0)
+    rng._corpus_calls = seq + 1
+    corpus_watch = None
+    if hostile_p > 0 and seq < 2 * objgen.N_HOSTILE:
+        v = objgen.hostile(rng, seq % objgen.N_HOSTILE)
+        g.pool.append(v)
+        if seq < objgen.N_HOSTILE:
+            frames[0]["locals"]["hc%d" % (seq % objgen.N_HOSTILE)] = v
+        else:
+            corpus_watch = ("special%d()" % (seq % objgen.N_HOSTILE), v)
     g.tie_cycles()
-    watches = []
+    watches = [corpus_watch] if corpus_watch is not None and n_watch != 0 else []
     for i in range(n_watch if n_watch is not None else rng.choice([0, 0, 1, 2, 3])):
         r = rng.random()
         top = frames[0]["locals"]
